@@ -23,7 +23,7 @@ VARIABLES l, silent,
           retq,      \* handlers that returned a closing value whose notification is not yet enqueued
           rejq,      \* handlers that have called reject(): the error answer and the permit follow
           dropq,     \* handlers that are dropping their pending sink
-          errq       \* subscribe calls whose -32603 answer (pending sink dropped) is still to be enqueued
+          errq       \* answers decided but not yet handed to their connection's queue: set of [c, m]
 tvars == <<vars, l, silent, asked, accw, sendw, sendr, unsubq, closing, recvd, retq, rejq, dropq, errq>>
 aux == <<asked, accw, sendw, sendr, unsubq, closing, recvd, retq, rejq, dropq, errq>>
 
@@ -91,7 +91,9 @@ T_End == Ev("End") /\ Stutter /\ UNCHANGED aux /\ \A k \in SubOps : sendw[k] = "
 
 (* ---- silent steps ---- *)
 RemoveAt(s, i) == [j \in 1..(Len(s) - 1) |-> IF j < i THEN s[j] ELSE s[j + 1]]
-S_Refuse == \E k \in asked : sub[k].st = "idle" /\ permits[ConnOf[k]] = 0 /\ Subscribe(k) /\ UNCHANGED aux
+S_Refuse == \E k \in asked : /\ SubscribeRefuseNoEnq(k)
+                              /\ errq' = errq \cup {[c |-> ConnOf[k], m |-> [t |-> "err", k |-> k, code |-> -32006]]}
+                              /\ UNCHANGED <<asked, accw, sendw, sendr, unsubq, closing, recvd, retq, rejq, dropq>>
 S_Accept == \E k \in SubOps : /\ accw[k] = "open" /\ Accept(k) /\ accw' = [accw EXCEPT ![k] = "done"]
                               /\ UNCHANGED <<asked, sendw, sendr, unsubq, closing, recvd, retq, rejq, dropq, errq>>
 S_AcceptInsert == \E k \in SubOps : AcceptInsert(k) /\ UNCHANGED aux
@@ -102,16 +104,20 @@ S_SendCheck == \E k \in SubOps : /\ sendw[k] = "open" /\ SendCheck(k)
 S_SendEnq == \E k \in SubOps : /\ sendw[k] = "checked" /\ SendEnqueue(k) /\ sendw' = [sendw EXCEPT ![k] = "done"]
                                /\ sendr' = [sendr EXCEPT ![k] = path'[Len(path')].res]
                                /\ UNCHANGED <<asked, accw, unsubq, closing, recvd, retq, rejq, dropq, errq>>
-S_Unsub == \E i \in 1..Len(unsubq) : /\ Unsub(unsubq[i][1], unsubq[i][2]) /\ unsubq' = RemoveAt(unsubq, i)
-                                      /\ UNCHANGED <<asked, accw, sendw, sendr, closing, recvd, retq, rejq, dropq, errq>>
+S_Unsub == \E i \in 1..Len(unsubq) :
+             LET c == unsubq[i][1]  k == unsubq[i][2]  hit == k \in table /\ ConnOf[k] = c IN
+             /\ UnsubNoEnq(c, k) /\ unsubq' = RemoveAt(unsubq, i)
+             /\ errq' = errq \cup {[c |-> c, m |-> [t |-> "unsubResp", k |-> k, v |-> hit]]}
+             /\ UNCHANGED <<asked, accw, sendw, sendr, closing, recvd, retq, rejq, dropq>>
 S_ConnClose == \E c \in closing : ConnCloseKeepQueue(c) /\ closing' = closing \ {c} /\ UNCHANGED <<asked, accw, sendw, sendr, unsubq, recvd, retq, rejq, dropq, errq>>
 S_Writer == \E c \in Conns : WriterSend(c) /\ UNCHANGED aux
 S_CloseNotif == \E k \in retq : /\ CloseEnqueue(k) /\ retq' = retq \ {k} /\ UNCHANGED <<asked, accw, sendw, sendr, unsubq, closing, recvd, rejq, dropq, errq>>
 S_Reject == \E k \in rejq : RejectEnqueue(k) /\ UNCHANGED aux
 S_RejectRelease == \E k \in rejq : RejectRelease(k) /\ rejq' = rejq \ {k} /\ UNCHANGED <<asked, accw, sendw, sendr, unsubq, closing, recvd, retq, dropq, errq>>
-S_DropPending == \E k \in dropq : DropPendingNoEnq(k) /\ dropq' = dropq \ {k} /\ errq' = errq \cup {k}
+S_DropPending == \E k \in dropq : DropPendingNoEnq(k) /\ dropq' = dropq \ {k}
+                                   /\ errq' = errq \cup {[c |-> ConnOf[k], m |-> [t |-> "err", k |-> k, code |-> -32603]]}
                                    /\ UNCHANGED <<asked, accw, sendw, sendr, unsubq, closing, recvd, retq, rejq>>
-S_ErrEnq == \E k \in errq : ErrEnqueue(k, -32603) /\ errq' = errq \ {k} /\ UNCHANGED <<asked, accw, sendw, sendr, unsubq, closing, recvd, retq, rejq, dropq>>
+S_ErrEnq == \E r \in errq : ReplyEnqueue(r.c, r.m) /\ errq' = errq \ {r} /\ UNCHANGED <<asked, accw, sendw, sendr, unsubq, closing, recvd, retq, rejq, dropq>>
 Silent == /\ silent < MaxSilent /\ silent' = silent + 1 /\ l' = l /\ l <= Len(Rec)
           /\ (S_Refuse \/ S_Accept \/ S_AcceptInsert \/ S_SendCheck \/ S_SendEnq \/ S_Unsub \/ S_ConnClose \/ S_Writer \/ S_CloseNotif \/ S_Reject \/ S_RejectRelease \/ S_DropPending \/ S_ErrEnq)
 
